@@ -53,6 +53,7 @@ pub struct Lexer {
     after_open: bool,
     after_where: bool,
     after_operator: bool,
+    pending_comma: bool,
 }
 
 impl Lexer {
@@ -66,12 +67,20 @@ impl Lexer {
             after_open: false,
             after_where: false,
             after_operator: false,
+            pending_comma: false,
         }
     }
 
     pub fn next_lexem(&mut self) -> Option<Lexem> {
         let mut s = String::new();
         let mut mode = LexingMode::Undefined;
+
+        if self.pending_comma {
+            // the separator that ended the previous search root (`from /a, /b` passed as separate words)
+            self.pending_comma = false;
+            self.possible_search_root = true;
+            return Some(Lexem::Comma);
+        }
 
         loop {
             let input_part = self.input.get(self.input_index);
@@ -86,6 +95,15 @@ impl Lexer {
             } else {
                 let input_char = input_part.chars().nth(self.char_index as usize);
                 if input_char.is_none() {
+                    if mode == LexingMode::RawString
+                        && self.possible_search_root
+                        && s.len() > 1
+                        && s.ends_with(',')
+                    {
+                        // a search root takes its whole shell word, but a trailing comma separates the roots
+                        s.pop();
+                        self.pending_comma = true;
+                    }
                     self.input_index += 1;
                     self.char_index = -1;
                     self.possible_search_root = false;
